@@ -2,6 +2,7 @@
 // Exhaustive enumeration of the finite domains against carry-less multiply mod 0x11D.
 #include "pbt.h"
 #include "guard.h"
+#include "kern.h"
 #include "ref_gf.h"
 extern "C" {
 #include "erasure_code.h"
@@ -116,7 +117,11 @@ static void body_init_tables(Tape &t, Ctx &c) {
 	PBT_CHECK(!f.faulted, "ec_init_tables", "ec_init_tables_base(k=%d,rows=%d): %s", k, rows, f.describe().c_str());
 	PBT_CHECK(guard::canaries_ok(tb), "ec_init_tables", "ec_init_tables_base wrote outside 32*k*rows");
 	for (int i = 0; i < k * rows; i++) check_tbl32(tb.p + 32 * i, a[i], "ec_init_tables_base");
-	// the dispatched builder produces either the 32-byte or the 8-byte (GFNI) form
+	// the dispatched builder produces either the 32-byte or the 8-byte (GFNI) form - whichever the encoder selected for the same processor reads
+	int lvi = (int) t.range(0, cpu::N_LEVELS - 1);
+	const char *lv = cpu::LEVEL_NAMES[lvi];
+	kern::use_level(lv);
+	c.fpmix(lvi);
 	guard::Buf td = guard::alloc(32 * k * rows, guard::END, "g_tbls_dispatched");
 	memset(td.p, 0xEE, td.len);
 	f = guard::call([&] { ec_init_tables(k, rows, ab.p, td.p); });
@@ -131,6 +136,23 @@ static void body_init_tables(Tape &t, Ctx &c) {
 		}
 		c.label("dispatched=gfni-form");
 	} else c.label("dispatched=32-byte-form");
+	// ... and the table-driven products through the encoder the same processor gets are the field products
+	{
+		const int len = 128;
+		std::vector<guard::Buf> src, dst;
+		std::vector<uint8_t *> sp(k), dp(rows);
+		for (int j = 0; j < k; j++) { src.push_back(guard::alloc(len, guard::END, "src")); for (int b = 0; b < len; b++) src[j].p[b] = (uint8_t) (mix64(seed * 7 + j * 131 + b) >> 19); sp[j] = src[j].p; }
+		for (int r = 0; r < rows; r++) { dst.push_back(guard::alloc(len, guard::END, "dest")); dp[r] = dst[r].p; }
+		f = guard::call([&] { ec_encode_data(len, k, rows, td.p, sp.data(), dp.data()); });
+		PBT_CHECK(!f.faulted, "ec_init_tables", "ec_encode_data with the dispatched tables (cpu %s): %s", lv, f.describe().c_str());
+		for (int r = 0; r < rows; r++)
+			for (int b = 0; b < len; b++) {
+				uint8_t want = 0;
+				for (int j = 0; j < k; j++) want ^= refgf::mul_slow(a[r * k + j], src[j].p[b]);
+				PBT_CHECK(dst[r].p[b] == want, "ec_init_tables", "cpu %s: tables from %s fed to %s give %u for row %d byte %d, the field value is %u (table format and encoder do not match?)", lv, cpu::resolved_name("ec_init_tables").c_str(), cpu::resolved_name("ec_encode_data").c_str(), dst[r].p[b], r, b, want);
+			}
+		c.label(std::string("cpu=") + lv);
+	}
 }
 
 int main(int argc, char **argv) {
@@ -138,7 +160,7 @@ int main(int argc, char **argv) {
 		{"mul_pairs", body_mul, 2, 0, sweep_mul, "all (a,b) in [0,255]^2 (x all third operands for associativity/distributivity); non-trivial: a!=0 and b!=0"},
 		{"inv", body_inv, 1, 0, sweep_inv, "all a in [0,255]; non-trivial: a!=0"},
 		{"tables", body_tbl, 1, 0, sweep_tbl, "all constants c: 32-byte table and GFNI matrix x all 256 inputs, and the table-driven products of gf_vect_mul{_base,_sse,_avx,dispatched} over all byte values; non-trivial: c>1"},
-		{"init_tables", body_init_tables, 3, 1, nullptr, "random (k,rows,coefficients) through ec_init_tables_base and the dispatched ec_init_tables; non-trivial: >=2 coefficients"},
+		{"init_tables", body_init_tables, 6, 1, nullptr, "random (k,rows,coefficients) through ec_init_tables_base and the dispatched ec_init_tables under a generated cpu level, then the table-driven products of the dispatched ec_encode_data for that level; non-trivial: >=2 coefficients"},
 	};
 	return pbt_main(argc, argv, "C12", subs);
 }
